@@ -18,6 +18,7 @@
 
     ctor :line …                     -> ok <state> | err:<class>      (`Log(x)`: a new object; `ctorCall`)
     ctort :text                      -> ok <state> | err:<class>
+    readts <0|1|->                   -> err:value                       (read of a stream opened in text mode: `readInput … .textStream`)
 
     an append flag / a style given as `-` = argument left out (default of the signature, regenerated from the source)
 
@@ -128,6 +129,14 @@ def handleC19 (w : World) (toks : List String) : World × String :=
       | .ok st' => ({ w with log := st' }, "ok " ++ showState st')
       | .error e => (w, err e.name)
     | _, _ => (w, err "format")
+  | ["readts", app] =>
+    -- a stream opened in text mode handed to read(): the model's answer for that input form
+    match parseOptBool? app with
+    | some a =>
+      match readInput st a .textStream with
+      | .ok (st', _) => ({ w with log := st' }, "ok " ++ showState st')
+      | .error e => (w, err e.name)
+    | none => (w, err "format")
   | "sopen" :: id :: rest =>
     match id.toNat?, rest.mapM decodeTok with
     | some id, some lines => (w.setStream id { lines := lines }, "ok")
